@@ -297,13 +297,13 @@ private theorem flagged_setAt_pw (st : PState) (idx i : Nat) (h : flagged st i) 
     | some r => rw [hx] at h; simpa using h
   · rw [setAt_get_other _ _ _ _ e]; exact h
 
-private theorem step3_preserves (cachedAnchors : List String) : ∀ (mt : List (String × List String)) (st st' : PState),
-    step3Targets cachedAnchors mt st = .ok st' →
+private theorem step3_preserves : ∀ (mt : List (String × List String)) (st st' : PState),
+    step3Targets mt st = .ok st' →
     st'.lookups = st.lookups ∧ st'.calls = st.calls ∧ st'.pageMaker.length = st.pageMaker.length ∧
-    (∀ i, flagged st i → flagged st' i) := by
+    st'.targets = st.targets ∧ (∀ i, flagged st i → flagged st' i) := by
   intro mt
   induction mt with
-  | nil => intro st st' h; simp [step3Targets] at h; subst h; exact ⟨rfl, rfl, rfl, fun _ h => h⟩
+  | nil => intro st st' h; simp [step3Targets] at h; subst h; exact ⟨rfl, rfl, rfl, rfl, fun _ h => h⟩
   | cons x xs ih =>
     intro st st' h
     obtain ⟨a, missed⟩ := x
@@ -315,17 +315,14 @@ private theorem step3_preserves (cachedAnchors : List String) : ∀ (mt : List (
       | some item =>
         simp only [ht] at h
         cases hi : item.index with
-        | none => simp [hi] at h
+        | none => simp only [hi] at h; exact ih st st' h
         | some idx =>
           simp only [hi] at h
-          by_cases hca : cachedAnchors.contains a = true
-          · simp only [hca, if_true] at h
-            by_cases hlt : idx < st.pageMaker.length
-            · simp only [hlt, if_true] at h
-              obtain ⟨h1, h2, h3, h4⟩ := ih _ st' h
-              exact ⟨h1, h2, by rw [h3]; simp [setAt_length], fun i hi => h4 i (flagged_setAt_pw st idx i hi)⟩
-            · simp [hlt] at h
-          · simp only [hca, Bool.false_eq_true, if_false] at h
+          by_cases hlt : idx < st.pageMaker.length
+          · simp only [hlt, if_true] at h
+            obtain ⟨h1, h2, h3, h4, h5⟩ := ih _ st' h
+            exact ⟨h1, h2, by rw [h3]; simp [setAt_length], h4, fun i hi => h5 i (flagged_setAt_pw st idx i hi)⟩
+          · simp only [hlt, if_false] at h
             exact ih st st' h
     · have hp' : missed.contains "pages" = false := by simpa using hp
       simp only [hp', Bool.not_false, if_true] at h
@@ -334,21 +331,21 @@ private theorem step3_preserves (cachedAnchors : List String) : ∀ (mt : List (
 /-- **A pending box is flagged as soon as its page is made**: when the counter section meets the lookup
 item `key` while it is `pending`, the page being made gets `content_changed`, `parse_again` is called
 with this page's counters and the mark is cleared. -/
-theorem pending_resolved (cur : Nat) (pcv : Vals) (cachedAnchors : List String) (refresh : Bool) (key : Nat)
+theorem pending_resolved (cur : Nat) (pcv : Vals) (refresh : Bool) (key : Nat)
     (st st' : PState) (l : LookupItem) (hl : st.lookups[key]? = some l) (hp : l.pending = true)
     (hcur : cur < st.pageMaker.length)
-    (h : lookupBody cur pcv cachedAnchors refresh key st = .ok st') :
+    (h : lookupBody cur pcv refresh key st = .ok st') :
     flagged st' cur ∧ (key, pcv) ∈ st'.calls ∧ ¬ isPending st' key := by
   unfold lookupBody at h
   simp only [hl] at h
   have hpend : (placed cur refresh l).pending = true := by
     unfold placed; split <;> simp [hp]
   obtain ⟨hcall, hclear, _⟩ := step12_pending pcv refresh _ hpend
-  cases hs3 : step3Targets cachedAnchors (step12 pcv refresh (placed cur refresh l)).1.missingTarget
+  cases hs3 : step3Targets (step12 pcv refresh (placed cur refresh l)).1.missingTarget
       (prepared cur pcv refresh key l st) with
   | error e => simp [hs3] at h
   | ok st3 =>
-    obtain ⟨h1, h2, h3, _⟩ := step3_preserves _ _ _ _ hs3
+    obtain ⟨h1, h2, h3, _, _⟩ := step3_preserves _ _ _ hs3
     simp only [hs3, hcall, if_true, Except.ok.injEq] at h
     subst h
     have hplen : (prepared cur pcv refresh key l st).pageMaker.length = st.pageMaker.length := by
@@ -369,41 +366,105 @@ theorem pending_resolved (cur : Nat) (pcv : Vals) (cachedAnchors : List String) 
       rw [setAt_get_same]
       simp [hl, hclear]
 
-/- Full statement (false of the code, `Witness.C15.forward_pages_reference_raises`): the counter section of
-   `make_page` never raises. -/
-/-- What holds: step 3 succeeds when every target whose `pages` counter is printed has already been met
-during pagination (backward references) and its page still exists. -/
-theorem step3_total_partial (cachedAnchors : List String) : ∀ (mt : List (String × List String)) (st : PState),
-    (∀ p ∈ mt, p.2.contains "pages" = true →
-      ∃ item idx, tget st.targets p.1 = some item ∧ item.index = some idx ∧ idx < st.pageMaker.length) →
-    ∃ st', step3Targets cachedAnchors mt st = .ok st' := by
+/-- **C15.step3_total** (full strength since `fix:` da41776; it was `step3_total_partial` with the hypothesis
+"every target whose `pages` counter is printed has already been met and its page still exists", refuted by
+the witness `forward_pages_reference_raises` for a target on a later page): step 3 of the counter section
+succeeds as soon as the targets it names have their `TargetLookupItem` (which `lookup_target` creates
+before it records a missing target counter), wherever they lie. -/
+theorem step3_total : ∀ (mt : List (String × List String)) (st : PState),
+    (∀ p ∈ mt, p.2.contains "pages" = true → (tget st.targets p.1).isSome = true) →
+    ∃ st', step3Targets mt st = .ok st' := by
   intro mt
   induction mt with
   | nil => intro st _; exact ⟨st, rfl⟩
   | cons x xs ih =>
     intro st h
     obtain ⟨a, missed⟩ := x
-    unfold step3Targets
-    by_cases hp : missed.contains "pages" = true
-    · obtain ⟨item, idx, h1, h2, h3⟩ := h (a, missed) List.mem_cons_self hp
-      simp only [hp, Bool.not_true, Bool.false_eq_true, if_false, h1, h2]
-      have rest : ∀ st2 : PState, st2.targets = st.targets → st2.pageMaker.length = st.pageMaker.length →
-          ∃ st', step3Targets cachedAnchors xs st2 = .ok st' := by
-        intro st2 ht hl
-        apply ih
-        intro p hpm hpp
-        obtain ⟨it, ix, a1, a2, a3⟩ := h p (List.mem_cons_of_mem _ hpm) hpp
-        exact ⟨it, ix, by rw [ht]; exact a1, a2, by rw [hl]; exact a3⟩
-      by_cases hca : cachedAnchors.contains a = true
-      · simp only [hca, h3, if_true]
-        exact rest _ rfl (by simp [setAt_length])
-      · simp only [hca, Bool.false_eq_true, if_false]
-        exact rest st rfl rfl
-    · have hp' : missed.contains "pages" = false := by simpa using hp
-      simp only [hp', Bool.not_false, if_true]
+    have rest : ∀ st2 : PState, st2.targets = st.targets → ∃ st', step3Targets xs st2 = .ok st' := by
+      intro st2 ht
       apply ih
       intro p hpm hpp
-      exact h p (List.mem_cons_of_mem _ hpm) hpp
+      rw [ht]; exact h p (List.mem_cons_of_mem _ hpm) hpp
+    unfold step3Targets
+    by_cases hp : missed.contains "pages" = true
+    · obtain ⟨item, h1⟩ := Option.isSome_iff_exists.mp (h (a, missed) List.mem_cons_self hp)
+      simp only [hp, Bool.not_true, Bool.false_eq_true, if_false, h1]
+      cases hi : item.index with
+      | none => exact rest st rfl
+      | some idx =>
+        simp only
+        split
+        · exact rest _ rfl
+        · exact rest st rfl
+    · have hp' : missed.contains "pages" = false := by simpa using hp
+      simp only [hp', Bool.not_false, if_true]
+      exact rest st rfl
+
+def wanted (st : PState) (i : Nat) : Prop := (st.pageMaker[i]?).map (·.pagesWanted) = some true
+
+private theorem wanted_setAt (st : PState) (idx i : Nat) (h : wanted st i) :
+    wanted { st with pageMaker := setAt st.pageMaker idx fun r => { r with pagesWanted := true } } i := by
+  unfold wanted at h ⊢
+  simp only
+  by_cases e : idx = i
+  · subst e
+    rw [setAt_get_same]
+    cases hx : st.pageMaker[idx]? with
+    | none => rw [hx] at h; simp at h
+    | some r => simp
+  · rw [setAt_get_other _ _ _ _ e]; exact h
+
+private theorem step3_wanted_mono : ∀ (mt : List (String × List String)) (st st' : PState),
+    step3Targets mt st = .ok st' → ∀ i, wanted st i → wanted st' i := by
+  intro mt
+  induction mt with
+  | nil => intro st st' h i hi; simp [step3Targets] at h; subst h; exact hi
+  | cons x xs ih =>
+    intro st st' h i hi
+    obtain ⟨a, missed⟩ := x
+    unfold step3Targets at h
+    split at h
+    · exact ih st st' h i hi
+    · split at h
+      · simp at h
+      · split at h
+        · exact ih st st' h i hi
+        · split at h
+          · exact ih _ st' h i (wanted_setAt st _ i hi)
+          · exact ih st st' h i hi
+
+/-- **The page of a `pages` target is re-made with the final page count** (forward or backward reference,
+da41776): after step 3, for every target whose `pages` counter the box prints, whose page is known and still
+exists, that page carries `pages_wanted`. -/
+theorem step3_marks_target_page : ∀ (mt : List (String × List String)) (st st' : PState),
+    step3Targets mt st = .ok st' →
+    ∀ p ∈ mt, p.2.contains "pages" = true → ∀ item idx, tget st.targets p.1 = some item → item.index = some idx →
+      idx < st.pageMaker.length → wanted st' idx := by
+  intro mt
+  induction mt with
+  | nil => intro st st' _ p hp; simp at hp
+  | cons x xs ih =>
+    intro st st' h p hpm hpp item idx ht hi hlt
+    obtain ⟨a, missed⟩ := x
+    rcases List.mem_cons.mp hpm with e | hin
+    · subst e
+      unfold step3Targets at h
+      simp only [hpp, Bool.not_true, Bool.false_eq_true, if_false, ht, hi, hlt, if_true] at h
+      apply step3_wanted_mono xs _ st' h idx
+      unfold wanted
+      simp only
+      rw [setAt_get_same]
+      simp [List.getElem?_eq_getElem hlt]
+    · unfold step3Targets at h
+      split at h
+      · exact ih st st' h p hin hpp item idx ht hi hlt
+      · split at h
+        · simp at h
+        · split at h
+          · exact ih st st' h p hin hpp item idx ht hi hlt
+          · split at h
+            · exact ih _ st' h p hin hpp item idx (by simpa using ht) hi (by simpa [setAt_length] using hlt)
+            · exact ih st st' h p hin hpp item idx ht hi hlt
 
 /-- `remake_page`: a new or changed following entry is always re-made, except the entry after the last
 page (`resume_at is None`), which must not be (#794). -/
@@ -426,6 +487,11 @@ example : flagged (cacheTarget exState "t" [("page", [2]), ("pages", [0])] 1) 0 
   · unfold flagged; decide
   · unfold isPending; decide
 example : (step12 [("page", [3])] true ⟨true, ["pages"], [], none, true, []⟩).2 = (true, true) := by decide
+-- a forward `pages` reference (target not met yet) passes step 3; a backward one marks the target's page
+example : step3Targets [("t", ["pages"])] exState = .ok exState := by rfl
+example : (step3Targets [("t", ["pages"])]
+    { exState with targets := [("t", ⟨true, some 1, []⟩)] }).map (·.pageMaker.map (·.pagesWanted)) =
+    .ok [false, true] := by rfl
 end Examples
 
 end Wp.C15
